@@ -3,3 +3,9 @@ import UpfVerif.Basic
 import UpfVerif.Model.Gtpu
 import UpfVerif.Spec.GtpuRef
 import UpfVerif.Props.C14
+import UpfVerif.Gen.Consts
+import UpfVerif.Gen.ConfigTags
+import UpfVerif.Gen.Conc
+import UpfVerif.Model.Flags
+import UpfVerif.Spec.TS29244Bits
+import UpfVerif.Props.C19
